@@ -7,6 +7,11 @@
   operations that produce core vectors (`ObjValueBuilder::{build,with_super,with_fields_omitted}`,
   `ObjValue::extend_from`) as `compile : OT → List Core`.
 
+  Companion files: Model/ObjLit.lean (the read loop and the value cache as written, proved equal to
+  `collect`), Model/ObjAssert.lean (`has_assertions`, `run_assertions`), Model/ObjSuper.lean
+  (`StandaloneSuperCore`).  A core carries `asrt` = its literal has `assert`s: a literal commits a
+  core iff it has fields or an assertion; the walkers ignore the flag.
+
   Import-free.  Field *values* are opaque payload ids: what is modelled is WHICH layers contribute
   to a read, in which order they are folded with `+`, and with which `super` index each is bound.
 -/
@@ -26,9 +31,9 @@ structure Field where
   val : Nat
   deriving Repr, DecidableEq, Inhabited
 
-/-- `OopObject` (a literal's own fields) / `OmitFieldsCore` -/
+/-- `OopObject` (a literal's own fields, `asrt` = its `assertion` is `Some`) / `OmitFieldsCore` -/
 inductive Core where
-  | oop (fields : List Field)
+  | oop (fields : List Field) (asrt : Bool)
   | omitC (names : List Name) (prev : Nat)
   deriving Repr, Inhabited
 
@@ -42,7 +47,7 @@ def lookup (fs : List Field) (n : Name) : Option Field := fs.find? (fun f => f.n
     (`first_add` then `add_stack`).  The caller folds the reversed list with `+`. -/
 def collect : List Core → Nat → Name → List (Field × Nat)
   | [], _, _ => []
-  | .oop fs :: rest, skip, n =>
+  | .oop fs _ :: rest, skip, n =>
       match (if skip == 0 then lookup fs n else none) with     -- `omit_only` = skip != 0
       | some f => if f.add then (f, rest.length) :: collect rest (skip - 1) n else [(f, rest.length)]
       | none => collect rest (skip - 1) n
@@ -53,7 +58,7 @@ def collect : List Core → Nat → Name → List (Field × Nat)
 /-- `has_field_include_hidden_idx` -/
 def hasGo : List Core → Nat → Name → Bool
   | [], _, _ => false
-  | .oop fs :: rest, skip, n =>
+  | .oop fs _ :: rest, skip, n =>
       if (lookup fs n).isSome && skip == 0 then true else hasGo rest (skip - 1) n
   | .omitC ns k :: rest, skip, n =>
       let skip' := if ns.contains n then max skip (k + 1) else skip
@@ -62,7 +67,7 @@ def hasGo : List Core → Nat → Name → Bool
 /-- `field_visibility_idx` (`exists` is the accumulator for `Found(Normal)`) -/
 def visGo : List Core → Nat → Bool → Name → Option Vis
   | [], _, ex, _ => if ex then some .normal else none
-  | .oop fs :: rest, skip, ex, n =>
+  | .oop fs _ :: rest, skip, ex, n =>
       match lookup fs n with
       | some f =>
           if skip == 0 then
@@ -79,7 +84,7 @@ def visGo : List Core → Nat → Bool → Name → Option Vis
     `i` = `omit_index`, `ou` = `omitted_until`, `cur` = `exists_visible`. -/
 def visAllGo : List Core → Nat → Nat → Option Vis → Name → Option Vis
   | [], _, _, cur, _ => cur
-  | .oop fs :: rest, i, ou, cur, n =>
+  | .oop fs _ :: rest, i, ou, cur, n =>
       match lookup fs n with
       | some f =>
           let cur' :=
@@ -113,7 +118,7 @@ def Vis.visible : Vis → Bool
 /-- names occurring in any core -/
 def coreNames : List Core → List Name
   | [] => []
-  | .oop fs :: r => fs.map (·.name) ++ coreNames r
+  | .oop fs _ :: r => fs.map (·.name) ++ coreNames r
   | .omitC ns _ :: r => ns ++ coreNames r
 
 def insertSorted (n : Nat) : List Nat → List Nat
@@ -135,21 +140,21 @@ def fieldsEx (cores : List Core) (includeHidden : Bool) : List Name :=
 
 /-- objects as the language builds them -/
 inductive OT where
-  | lit (fs : List Field)          -- `{ ... }`
+  | lit (fs : List Field) (asrt : Bool)   -- `{ ... }`; `asrt` = the literal has `assert`s
   | add (a b : OT)                 -- `a + b`, `a { ... }`
   | rm (o : OT) (ns : List Name)   -- `std.objectRemoveKey(o, n)` (`with_fields_omitted`)
   deriving Repr, Inhabited
 
-/-- `ObjValueBuilder::build` (an empty literal commits no core), `extend_from`,
-    `with_super(o).with_fields_omitted(ns)` -/
+/-- `ObjValueBuilder::build` (`commit`: a literal with neither fields nor an assertion commits no
+    core — `OopObject::is_empty`), `extend_from`, `with_super(o).with_fields_omitted(ns)` -/
 def compile : OT → List Core
-  | .lit fs => if fs.isEmpty then [] else [.oop fs]
+  | .lit fs a => if fs.isEmpty && !a then [] else [.oop fs a]
   | .add a b => compile a ++ compile b
   | .rm o ns => compile o ++ [.omitC ns (compile o).length]
 
 /-- the object made of the first `l` layers of `t` ("the layers left of layer `l`" = `super` there) -/
 def takeTerm : OT → Nat → OT
-  | .lit fs, l => if l = 0 then .lit [] else .lit fs
+  | .lit fs a, l => if l = 0 then .lit [] false else .lit fs a
   | .add a b, l => .add (takeTerm a l) (takeTerm b (l - (compile a).length))
   | .rm o ns, l => if l ≤ (compile o).length then takeTerm o l else .rm o ns
 
@@ -157,7 +162,7 @@ def takeTerm : OT → Nat → OT
 
 /-- every definition of `n` that is not masked, right-most (top-most) first -/
 def defs : OT → Name → List Field
-  | .lit fs, n => (lookup fs n).toList
+  | .lit fs _, n => (lookup fs n).toList
   | .add a b, n => defs b n ++ defs a n
   | .rm o ns, n => if ns.contains n then [] else defs o n
 
@@ -181,7 +186,7 @@ def specVis (t : OT) (n : Name) : Option Vis := visSpec (defs t n)
 
 /-- names mentioned anywhere in a term -/
 def termNames : OT → List Name
-  | .lit fs => fs.map (·.name)
+  | .lit fs _ => fs.map (·.name)
   | .add a b => termNames a ++ termNames b
   | .rm o ns => termNames o ++ ns
 
